@@ -259,6 +259,14 @@ func genC07(c *Ctx) {
 		s.tick(130)
 		return true
 	}
+	endedNow := func(s *Sys) bool { // party 1 ends the session, party 2 learns it; no time passes
+		if !s.Handshake(1, 2) {
+			return false
+		}
+		s.End(1)
+		s.Pump(1, 2, 6)
+		return true
+	}
 	var configs []config
 	for _, vp := range [][2]int{{polV3, polV3}, {polV2, polV2 | polV3}, {polV2 | polV3, polV3}} {
 		configs = append(configs,
@@ -269,12 +277,14 @@ func genC07(c *Ctx) {
 			config{"error-start", vp[0], vp[1] | polErrStart, nil, []action{errTo2}},
 			config{"require-send", vp[0] | polRequire, vp[1], nil, []action{send1("needs encryption")}},
 			config{"require-send-twice", vp[0] | polRequire, vp[1], nil, []action{send1("needs encryption"), send1("this one too")}},
+			config{"after-end-at-once", vp[0], vp[1], endedNow, []action{q12}},
+			config{"after-end-at-once-other-side", vp[0], vp[1], endedNow, []action{q21}},
 			config{"refresh", vp[0], vp[1], established, []action{q12}},
 			config{"refresh-both", vp[0], vp[1], established, []action{q12, q21}},
 		)
 	}
 	for ci, cf := range configs {
-		if !c.Thorough() && ci >= 9 && ci%3 != 0 { // quick: all nine with the first policy pair, a third of the rest
+		if !c.Thorough() && ci >= 11 && ci%3 != 0 { // quick: all nine with the first policy pair, a third of the rest
 			continue
 		}
 		seed := c.R.U64()
